@@ -30,7 +30,7 @@ SERVER = ("127.0.0.53", 53)
 SERVERS = [("127.0.0.53", 53), ("127.0.0.54", 53), ("127.0.0.55", 5353)]
 
 
-def flood(src_ip, n, duration, cookie=None, qprefix="f", servers=None, long_names=False):
+def flood(src_ip, n, duration, cookie=None, qprefix="f", servers=None, long_names=False, extra_opts=b""):
     """Serial flood from one source address, spread over the given listener addresses (the bound is per source, whichever
     of the server's addresses it talks to); returns list of (t, len, rcode) for responses."""
     servers = servers or [SERVER]
@@ -44,9 +44,9 @@ def flood(src_ip, n, duration, cookie=None, qprefix="f", servers=None, long_name
     t0 = time.monotonic()
     gap = duration / max(n, 1)
     for i in range(n):
-        opts = b""
+        opts = extra_opts
         if cookie:
-            opts = struct.pack(">HH", 10, len(cookie)) + cookie
+            opts = struct.pack(">HH", 10, len(cookie)) + cookie + extra_opts
         q = dnslib.build_query(i & 0xFFFF, "%s%d.%srefused.test" % (qprefix, i, pad), edns=1232, options=opts)
         try:
             s.sendto(q, servers[i % len(servers)])
@@ -151,6 +151,10 @@ def main():
         sent, got, _ = flood("127.0.9.3", n1, 20.0 if thorough else 8.0, qprefix="m", servers=SERVERS, long_names=True)
         check_windows("flood-over-three-listeners", got, "127.0.9.3")
         leg.count("flood_queries", len(sent))
+        # queries LARGER than the REFUSED they draw (60 octets of EDNS padding the server does not echo): no amplification, but
+        # the bound is on what is sent towards a source, not on the ratio
+        sent, got, _ = flood("127.0.9.4", n1, 10.0 if thorough else 5.0, qprefix="pad", extra_opts=struct.pack(">HH", 12, 60) + bytes(60))
+        check_windows("flood-padded-queries", got, "127.0.9.4")
         # a PERMITTED source whose queries the upstream refuses: the REFUSED it is sent (relayed) counts like any other
         sent, got, _ = flood("127.0.0.77", n1, 10.0 if thorough else 5.0, qprefix="rr")
         check_windows("flood-relayed-refused", got, "127.0.0.77")
